@@ -14,6 +14,8 @@ class Naming(object):
         self.scheme = scheme
 
     def level(self, l):
+        if self.scheme == 'quoted':
+            return f'lv {l}'
         if self.scheme == 'structural':
             return f'L{l}'
         if self.scheme == 'reversed':
@@ -21,6 +23,8 @@ class Naming(object):
         return 'abcdefghij'[l]
 
     def node(self, l, n):
+        if self.scheme == 'quoted':
+            return f'k{n}, "x{l}"'
         if self.scheme == 'structural':
             return f'L{l}_n{n}'
         if self.scheme == 'reversed':
